@@ -229,7 +229,7 @@ pub fn expect(cap: usize, len: usize, act: &Act) -> Exp {
             v.clear();
             trace.push(Obs::Unit);
         }
-        Extend(m) | ExtendHint(m, _) => {
+        Extend(m) | ExtendHint(m, _) | ExtendPairs(m) => {
             v.extend((0..m).map(t_a));
             v = last_n(v, cap);
             trace.push(Obs::Unit);
